@@ -111,11 +111,13 @@ class Ctx:
             return None
         return bs[0]
 
-    def evaluate(self, body, no_inline=(), inline=True, args=None, tag=''):
-        ck = (body['did'], tuple(sorted(no_inline)), inline, tag)
+    def evaluate(self, body, no_inline=(), inline=True, args=None, tag='', opts=None):
+        ck = (body['did'], tuple(sorted(no_inline)), inline, tag, tuple(sorted((opts or {}).items())))
         if ck in self.cache and args is None:
             return self.cache[ck]
         vf = VF(self.facts, SemTab(), inline=inline, no_inline=no_inline)
+        for k_, v_ in (opts or {}).items():
+            setattr(vf, k_, v_)
         ret = vf.eval_fn(body, args=args)
         ev = Eval(vf, body, ret)
         self.bodies_analysed.add(strip_generics(body['path']))
